@@ -388,13 +388,13 @@ Proof.
   now apply fmt_integer_padded.
 Qed.
 
-(* through px.NewFormatContext3(value, directive) + ToString, NaN excluded (open finding
-   nan-directive-ignored: Float[NaN, NaN] does not accept itself, the directive is not applied) *)
+(* through px.NewFormatContext3(value, directive) + ToString (NaN included since the fix of nan-directive-ignored:
+   its type is the unbounded Float type, which accepts itself, so the directive is applied) *)
 Theorem width_respected_directive o v s f t :
-  is_container v = false -> is_nan_value v = false -> float_path v (f_char f) = false ->
+  is_container v = false -> float_path v (f_char f) = false ->
   parse_format s None None CfNone = ROk f ->
   format_value o v (FStr s) = Some (OText t) -> f_width f <= rlen t.
 Proof.
-  intros Hc Hn Hf Hp H. rewrite (format_value_scalar o v s f Hc Hn Hp) in H. injection H as H.
+  intros Hc Hf Hp H. rewrite (format_value_scalar o v s f Hc Hp) in H. injection H as H.
   now apply (width_respected o f v t).
 Qed.
